@@ -816,6 +816,7 @@ func (e *Engine) fieldLowerBoundVar(v *types.Var) (int64, bool) {
 		}
 	}
 	res := fieldInvRes{lo: 0, has: true}
+	var pending []*ssa.Store
 	for _, st := range stores {
 		if c, ok := ConstInt(st.Val); ok {
 			if c < 0 {
@@ -825,10 +826,35 @@ func (e *Engine) fieldLowerBoundVar(v *types.Var) (int64, bool) {
 		}
 		a := e.Analyze(st.Parent())
 		if a == nil || !a.Converged || !a.Entails(st.Block(), a.Lin(st.Val)) {
-			res.has = false
-			res.witness = fmt.Sprintf("%s stores a value of unknown sign", st.Parent().String())
-			break
+			pending = append(pending, st)
 		}
+	}
+	if res.has && len(pending) > 0 && len(pending) <= 4 {
+		// induction over the writers: the zero value satisfies the bound; a store of an expression over the field
+		// itself (pos = pos + n) preserves it when it does so under the assumption that loads of the field see a
+		// value >= 0. The assumption is visible only to throw-away analyses of the storing functions.
+		e.fieldInv[v] = fieldInvRes{lo: 0, has: true}
+		for _, st := range pending {
+			a := e.newFuncAn(st.Parent())
+			a.run()
+			if !a.Converged || !a.Entails(st.Block(), a.Lin(st.Val)) {
+				res.has = false
+				res.witness = fmt.Sprintf("%s stores a value of unknown sign", st.Parent().String())
+				break
+			}
+		}
+		if !res.has {
+			// nothing computed under the failed assumption may survive: summaries of callees were cached meanwhile
+			e.fieldInv[v] = res
+			e.fas = map[*ssa.Function]*FuncAn{}
+			e.ctxFas = map[*ssa.Function]*FuncAn{}
+			e.sums = map[*ssa.Function]*Summary{}
+			e.decs = map[*ssa.Function]*DecSummary{}
+			return res.lo, res.has
+		}
+	} else if len(pending) > 0 {
+		res.has = false
+		res.witness = fmt.Sprintf("%s stores a value of unknown sign", pending[0].Parent().String())
 	}
 	e.fieldInv[v] = res
 	return res.lo, res.has
